@@ -737,6 +737,118 @@ done:
 	vbuf_free(&canon); vbuf_free(&other); vbuf_free(&c.in); vcfg_free(&c.cfg);
 }
 
+//////////////
+// longhaul //
+//////////////
+
+// More than 4 GiB through one encoder so that every 32-bit position counter wraps FOR REAL (hook H1 only moves the
+// match finder's normalisation point): the input is generated block by block, the encoder's output goes straight
+// into the matching decoder, and the decoder's output is compared with a second instance of the generator. Nothing
+// of the 4 GiB is stored.
+typedef struct { uint64_t s; uint8_t hist[1u << 16]; size_t hn; } lh_gen;
+
+static void lh_fill(lh_gen *g, uint8_t *buf, size_t n)
+{
+	size_t i = 0;
+	while (i < n) {
+		g->s = g->s * 6364136223846793005ull + 1442695040888963407ull;
+		uint32_t x = (uint32_t)(g->s >> 33);
+		if ((x & 7) < 5 && g->hn >= 64) {
+			// copy from the recent history: distance 1..hn, length 3..66
+			size_t dist = 1 + (x >> 3) % g->hn, len = 3 + ((x >> 20) & 63);
+			for (size_t k = 0; k < len && i < n; ++k, ++i) {
+				uint8_t b = g->hist[(g->hn - dist + k) % sizeof(g->hist)];
+				buf[i] = b;
+			}
+		} else {
+			size_t len = 1 + ((x >> 8) & 7);
+			for (size_t k = 0; k < len && i < n; ++k, ++i) buf[i] = (uint8_t)(x >> (k * 3));
+		}
+		// history = the last 64 KiB written (approximation: refresh from the tail of buf)
+		size_t take = i < sizeof(g->hist) ? i : sizeof(g->hist);
+		if ((g->s & 0xFF) == 0 || i == n) { memcpy(g->hist, buf + i - take, take); g->hn = take; }
+	}
+}
+
+static void longhaul_case(uint64_t idx)
+{
+	vrng r; vrng_init(&r, A.seed, 0x10A6, idx, 0);
+	hx_case_begin(idx);
+	static const lzma_match_finder mfs[] = { LZMA_MF_HC3, LZMA_MF_HC4, LZMA_MF_BT2, LZMA_MF_BT3, LZMA_MF_BT4 };
+	lzma_options_lzma o; lzma_lzma_preset(&o, 0);
+	o.mf = mfs[idx % 5]; o.mode = (idx / 5) % 2 ? LZMA_MODE_NORMAL : LZMA_MODE_FAST;
+	o.dict_size = 4096u << vrng_below(&r, 9);          // 4 KiB .. 1 MiB
+	o.nice_len = 8 + vrng_below(&r, 40); o.depth = 2 + vrng_below(&r, 10);
+	if (o.nice_len < (o.mf & 0x0F)) o.nice_len = o.mf & 0x0F;
+	o.lc = vrng_below(&r, 5); o.lp = vrng_below(&r, 5 - o.lc); o.pb = vrng_below(&r, 5);
+	int container = (int)((idx / 10) % 3);   // 0 .xz (LZMA2), 1 .lzma (LZMA1), 2 raw delta+LZMA2
+	lzma_options_delta od = { .type = LZMA_DELTA_TYPE_BYTE, .dist = 1 + vrng_below(&r, 256) };
+	lzma_filter f[3]; unsigned nf = 0;
+	if (container == 2) { f[nf].id = LZMA_FILTER_DELTA; f[nf++].options = &od; }
+	f[nf].id = LZMA_FILTER_LZMA2; f[nf++].options = &o; f[nf].id = LZMA_VLI_UNKNOWN; f[nf].options = NULL;
+	uint64_t total = (UINT64_C(1) << 32) + (UINT64_C(1) << 20) * (1 + vrng_below(&r, 96)) + vrng_below(&r, 4096);
+	if (getenv("VERIF_LONGHAUL_MB")) total = (UINT64_C(1) << 20) * strtoull(getenv("VERIF_LONGHAUL_MB"), NULL, 10) + vrng_below(&r, 4096);   // self-test of the engine only
+	char desc[300];
+	snprintf(desc, sizeof(desc), "longhaul %s mf=0x%x mode=%d dict=%u nice=%u depth=%u lc%u lp%u pb%u total=%" PRIu64,
+			container == 0 ? "xz" : (container == 1 ? "lzma" : "raw-delta-lzma2"), (unsigned)o.mf, (int)o.mode, o.dict_size, o.nice_len, o.depth, o.lc, o.lp, o.pb, total);
+	hx_sample("%s", desc);
+	alarm(7200);   // this case alone may run for many minutes
+	lzma_stream e = LZMA_STREAM_INIT, d = LZMA_STREAM_INIT;
+	lzma_ret er = container == 0 ? lzma_stream_encoder(&e, f, LZMA_CHECK_CRC32) : (container == 1 ? lzma_alone_encoder(&e, &o) : lzma_raw_encoder(&e, f));
+	lzma_ret dr = container == 0 ? lzma_stream_decoder(&d, UINT64_MAX, 0) : (container == 1 ? lzma_alone_decoder(&d, UINT64_MAX) : lzma_raw_decoder(&d, f));
+	if (er != LZMA_OK || dr != LZMA_OK) { hx_violation("C01", "encode-failed|longhaul", idx, "init %s/%s; %s", lzma_ret_name(er), lzma_ret_name(dr), desc); lzma_end(&e); lzma_end(&d); return; }
+	enum { IB = 1u << 20, CB = 1u << 16, OB = 1u << 18 };
+	uint8_t *ib = malloc(IB), *cb = malloc(CB), *ob = malloc(OB), *xb = malloc(OB);
+	lh_gen gi, go; memset(&gi, 0, sizeof(gi)); memset(&go, 0, sizeof(go)); gi.s = go.s = A.seed * 1000003u + idx;
+	// the verifier regenerates the same stream in the same block sizes, so it keeps a block of its own
+	uint8_t *vb = malloc(IB); size_t vpos = 0, vlen = 0;
+	uint64_t fed = 0, outn = 0, compn = 0; bool bad = false; bool dec_end = false;
+	uint64_t norm0 = visit(VERIF_D_LZ_ENC, VERIF_LZE_NORMALIZE);
+	lzma_verif_mf_offset_bias = 0;
+	while (!bad) {
+		size_t n = (size_t)(total - fed < IB ? total - fed : IB);
+		if (n) lh_fill(&gi, ib, n);
+		e.next_in = ib; e.avail_in = n; fed += n;
+		lzma_action act = fed == total ? LZMA_FINISH : LZMA_RUN;
+		lzma_ret ret;
+		do {
+			e.next_out = cb; e.avail_out = CB;
+			ret = lzma_code(&e, act);
+			size_t cn = CB - e.avail_out; compn += cn;
+			if (ret != LZMA_OK && ret != LZMA_STREAM_END) { hx_violation("C01", "encode-failed|longhaul", idx, "encoder returned %s after %" PRIu64 " input bytes; %s", lzma_ret_name(ret), fed, desc); bad = true; break; }
+			// decode what was produced
+			d.next_in = cb; d.avail_in = cn;
+			while (!bad && (d.avail_in || (ret == LZMA_STREAM_END && !dec_end))) {
+				d.next_out = ob; d.avail_out = OB;
+				lzma_ret r2 = lzma_code(&d, ret == LZMA_STREAM_END ? LZMA_FINISH : LZMA_RUN);
+				size_t on = OB - d.avail_out;
+				// compare with the regenerated input
+				size_t done = 0;
+				while (done < on) {
+					if (vpos == vlen) { vlen = (size_t)(total - outn - done < IB ? total - outn - done : IB); if (!vlen) break; lh_fill(&go, vb, vlen); vpos = 0; }
+					size_t m = on - done < vlen - vpos ? on - done : vlen - vpos;
+					if (memcmp(ob + done, vb + vpos, m)) { size_t at = 0; while (ob[done + at] == vb[vpos + at]) ++at; hx_violation("C01", "roundtrip-mismatch|longhaul", idx, "decoded data differs from the input at offset %" PRIu64 "; %s", outn + done + at, desc); bad = true; break; }
+					done += m; vpos += m;
+				}
+				if (!bad && done < on) { hx_violation("C01", "roundtrip-mismatch|longhaul", idx, "decoder produced more than the %" PRIu64 " input bytes; %s", total, desc); bad = true; }
+				outn += on;
+				if (r2 == LZMA_STREAM_END) { dec_end = true; break; }
+				if (r2 != LZMA_OK) { hx_violation("C01", "decode-failed|longhaul", idx, "decoder returned %s at output offset %" PRIu64 "; %s", lzma_ret_name(r2), outn, desc); bad = true; break; }
+				if (on == 0 && d.avail_in == 0) break;
+			}
+		} while (!bad && (ret == LZMA_OK && (e.avail_in || act == LZMA_FINISH)));
+		if (act == LZMA_FINISH) break;
+	}
+	(void)xb;
+	if (!bad && (!dec_end || outn != total)) hx_violation("C01", "roundtrip-mismatch|longhaul", idx, "decoder delivered %" PRIu64 " of %" PRIu64 " bytes (end of stream %s); %s", outn, total, dec_end ? "seen" : "not seen", desc);
+	hx_eval();
+	hx_count("longhaul_input_bytes", fed); hx_count("longhaul_compressed_bytes", compn);
+	hx_count("longhaul_real_normalizations", visit(VERIF_D_LZ_ENC, VERIF_LZE_NORMALIZE) - norm0);
+	{ char nm[40]; snprintf(nm, sizeof(nm), "longhaul_mf_0x%x", (unsigned)o.mf); hx_count(nm, 1); }
+	hx_distinct(vhash(desc, strlen(desc), VHASH_INIT), true);
+	lzma_end(&e); lzma_end(&d); free(ib); free(cb); free(ob); free(xb); free(vb);
+}
+
 int main(int argc, char **argv)
 {
 	hx_parse(argc, argv, &A);
@@ -744,6 +856,7 @@ int main(int argc, char **argv)
 	uint64_t idx = UINT64_MAX;
 	while (hx_next_case(&A, &idx)) {
 		if (!strcmp(A.mode, "c06enc")) c06enc_case(idx);
+		else if (!strcmp(A.mode, "longhaul")) longhaul_case(idx);
 #ifdef WITH_REFDEC
 		else if (!strcmp(A.mode, "c02bound")) c02bound_case(idx);
 #endif
